@@ -10,7 +10,7 @@ import itertools
 
 import numpy as np
 
-from vp import probe, refmodels as rm
+from vp import gen, probe, refmodels as rm
 
 RULE = ('seeded generator: field shapes 1..7 per side (even/odd/non-square/one-element), integer offsets in '
         '[-12,12] of either sign incl. negative-only extents and fields wholly outside the target, target '
@@ -280,7 +280,8 @@ def _rshape(rng, lo=1, hi=7):
 
 
 def _rdata(rng, shape):
-    return rng.normal(size=shape) + 1j * rng.normal(size=shape)
+    # field data in any memory layout (C / Fortran order, strided views)
+    return gen.layout(rng, rng.normal(size=shape) + 1j * rng.normal(size=shape), 0.2)
 
 
 def _bbox(cs):
